@@ -384,6 +384,7 @@ def eval_case(case):
         {"x": ("num", Fraction(0)), "y": ("num", Fraction(2))},
         {"y": ("num", Fraction(7, 4))},
     ]
+    applied = []
     for fmap in free_maps:
         if not set(fmap) <= want_free:
             continue
@@ -400,6 +401,7 @@ def eval_case(case):
                     {sp.Symbol(k): sp.Rational(v.numerator, v.denominator)
                      for k, v in env.items()}))
         want2 = ref_value(ast, env2)
+        applied.append((fmap, rule, want2))
         # plain (sequential) subs, simultaneous subs and xreplace take different routes
         # through the class; the maps used here have no chained targets, so all three must
         # give the substituted reference
@@ -429,6 +431,26 @@ def eval_case(case):
                 got = lib_value(new, env)
                 if not close(got, want):
                     bad(f"{how}-index", f"{name}->{tgt}: value {got} != {want}; got {new}")
+    # 6. both at once: a map that names a summation index AND free symbols replaces the
+    #    free symbols and leaves the bound index alone
+    for name in index_names:
+        if name in want_free:
+            continue
+        for fmap, frule, want2 in applied[:3]:
+            for tgt in (sp.Integer(5), sp.Symbol("z")):
+                rule = {sp.Symbol(name): tgt, **frule}
+                for how in ("subs", "subs-sequential", "xreplace"):
+                    n_ops += 1
+                    if how == "subs":
+                        new = ps.subs(rule, simultaneous=True)
+                    elif how == "subs-sequential":
+                        new = ps.subs(rule)
+                    else:
+                        new = ps.xreplace(rule)
+                    got = lib_value(new, env)
+                    if not close(got, want2):
+                        bad(f"{how}-index+free",
+                            f"{name}->{tgt} with {fmap}: value {got} != substituted reference {want2}; got {new}")
     multi = any(len(POOLS[p]) > 1 for _, p in _all_indices(ast))
     return {
         "violations": viol,
